@@ -187,14 +187,36 @@ def stepOp (faults : List Nat) (l : Loc) : Op → OpRes
         | _ => l
       { sec := some [(.ctl c, r)], raised := r, loc := { l' with n := l.n + 1 } }
 
-/-- run a forwarder program; every operation is attempted (the caller catches what an operation
-raises and carries on).  Returns the critical sections in order and, per operation, "raised". -/
-def sections (faults : List Nat) : Loc → List Op → List Section × List Bool
+/-- the outcomes after which a forwarder consults its own `failfast` (`_stop_if_failfast()`): those that make a run
+unsuccessful, as in `TestResult` -/
+def Op.unsuccessful : Op → Bool
+  | .outcome .error _ => true
+  | .outcome .failure _ => true
+  | .outcome .uxsuccess _ => true
+  | _ => false
+
+def secList : Option Section → List Section
+  | some s => [s]
+  | none => []
+
+/-- one operation as the caller sees it: `stepOp`, and then - `failfast` set on the forwarder itself, an unsuccessful
+outcome, nothing raised so far - `self.stop()`, a second critical section (`if self.failfast: self.stop()` after
+`_add_result_with_semaphore` has returned).  Returns the sections, "raised into the caller", the local state. -/
+def runOp (faults : List Nat) (ff : Bool) (l : Loc) (o : Op) : List Section × Bool × Loc :=
+  let r := stepOp faults l o
+  if ff && o.unsuccessful && !r.raised then
+    let x := stepOp faults r.loc (.ctl .stop)
+    (secList r.sec ++ secList x.sec, x.raised, x.loc)
+  else (secList r.sec, r.raised, r.loc)
+
+/-- run a forwarder program (`ff`: failfast is set on the forwarder); every operation is attempted (the caller
+catches what an operation raises and carries on).  Returns the critical sections in order and, per operation, "raised". -/
+def sections (faults : List Nat) (ff : Bool) : Loc → List Op → List Section × List Bool
   | _, [] => ([], [])
   | l, o :: os =>
-    let r := stepOp faults l o
-    let rest := sections faults r.loc os
-    ((match r.sec with | some s => s :: rest.1 | none => rest.1), r.raised :: rest.2)
+    let r := runOp faults ff l o
+    let rest := sections faults ff r.2.2 os
+    (r.1 ++ rest.1, r.2.1 :: rest.2)
 
 /-- as `sections`, but the first raise abandons the rest of the program (a worker's `run()`);
 returns also the final local state and "raised" -/
@@ -297,6 +319,7 @@ def finished (s : St) : Bool := s.pcs.all List.isEmpty
 structure Thread where
   ops : List Op
   faults : List Nat
+  failfast : Bool := false      -- `failfast` assigned on the forwarder itself
 deriving Repr, Inhabited
 
 structure Input where
@@ -310,7 +333,7 @@ structure Trace where
   finished : Bool             -- every thread ran to its end (no deadlock)
 deriving Repr, Inhabited
 
-def Thread.secs (t : Thread) : List Section := (sections t.faults {} t.ops).1
+def Thread.secs (t : Thread) : List Section := (sections t.faults t.failfast {} t.ops).1
 
 def init (ts : List Thread) : St := { pcs := ts.map fun t => progSteps t.secs }
 
@@ -320,6 +343,6 @@ def final (i : Input) : St :=
 
 def model (i : Input) : Trace :=
   let s := final i
-  { log := s.log, exc := i.threads.map (fun t => (sections t.faults {} t.ops).2), finished := finished s }
+  { log := s.log, exc := i.threads.map (fun t => (sections t.faults t.failfast {} t.ops).2), finished := finished s }
 
 end TTV.Conc
